@@ -156,6 +156,9 @@ def conc_phase(ctx):
     if tier != "quick":
         scens = (gens.gen_paths(seed, "thorough")[:nq // 2] + gens.gen_repeat(seed, "thorough")[:nq // 4]
                  + gens.gen_text(seed, "thorough")[:nq // 8] + gens.gen_html(seed, "thorough")[:nq // 16] + gens.gen_json(seed, "thorough")[:nq // 16])
+    # owners must be independent: scenarios that register decoration names would share those names through the
+    # process-global registry (the statement has the registry read, and extended with fresh names only)
+    scens = [ops for ops in scens if not any(o["op"] == "regdecor" for o in ops)]
     sp = os.path.join(d, "scen.ndjson")
     vlib.write_scenarios(sp, [("k%d" % i, ops) for i, ops in enumerate(scens)])
     for i, ops in enumerate(scens):
